@@ -16,6 +16,8 @@ import (
 	"github.com/protobom/protobom/pkg/sbom"
 	"github.com/protobom/protobom/pkg/writer"
 
+	"google.golang.org/protobuf/proto"
+
 	"verifharness/coqfmt"
 	"verifharness/gen"
 	"verifharness/nativefmt"
@@ -203,7 +205,18 @@ func runC02(seed int64, n int, dir string, tier string) *Report {
 			mb := byID(b)
 			for _, na := range a.Nodes {
 				if diff := cdxAttrDiff(na, mb[na.Id]); diff != "" {
-					rep.Fail(Failure{What: "CycloneDX round trip changed a CycloneDX-expressible attribute", Detail: "node " + na.Id + ": " + diff, Input: in})
+					f := Failure{What: "CycloneDX round trip changed a CycloneDX-expressible attribute", Detail: "node " + na.Id + ": " + diff, Input: in}
+					// K13: only the licence list differs, and what came back is exactly its first entry
+					if nb := mb[na.Id]; len(na.Licenses) >= 2 && len(nb.Licenses) == 1 && nb.Licenses[0] == na.Licenses[0] {
+						cp := proto.Clone(na).(*sbom.Node)
+						cp.Licenses = nb.Licenses
+						if cdxAttrDiff(cp, nb) == "" {
+							f.Finder = "cdx_later_licences_dropped"
+							rep.Fail(f)
+							continue
+						}
+					}
+					rep.Fail(f)
 					break
 				}
 			}
@@ -234,7 +247,25 @@ func runC02(seed int64, n int, dir string, tier string) *Report {
 				continue
 			}
 			if !sameNodeListCanon(d2.NodeList, d3.NodeList) {
-				rep.Fail(Failure{What: "a second CycloneDX write-then-read pass changed the document further", Input: in})
+				f := Failure{What: "a second CycloneDX write-then-read pass changed the document further", Input: in}
+				// K13 again: the concluded licence of a node that lost licences in the first pass is
+				// recomputed from the one licence that is left
+				x2, x3 := proto.Clone(d2.NodeList).(*sbom.NodeList), proto.Clone(d3.NodeList).(*sbom.NodeList)
+				multi := map[string]bool{}
+				for _, nd := range d.NodeList.Nodes {
+					multi[nd.Id] = len(nd.Licenses) >= 2
+				}
+				for _, l := range []*sbom.NodeList{x2, x3} {
+					for _, nd := range l.Nodes {
+						if multi[nd.Id] {
+							nd.LicenseConcluded = ""
+						}
+					}
+				}
+				if sameNodeListCanon(x2, x3) {
+					f.Finder = "cdx_later_licences_dropped"
+				}
+				rep.Fail(f)
 			}
 		}
 	}
